@@ -296,4 +296,5 @@ def rg_gyration_rigid(rot: int = 2):
     G.add("gyration_trace", [], tr(S1) == tr(S2), {})
     G.add("gyration_frobenius", [], fro(S1) == fro(S2), {})
     G.add("gyration_det", [], S.tz(S._det3(S1[0])) == S.tz(S._det3(S2[0])), {})
-    return G.run(None)
+    from harness import c16_replay
+    return G.run(c16_replay.replay("rg_gyration_rigid"))
